@@ -1,17 +1,22 @@
 pub mod vc_diff;
+pub mod vc_rules;
 
 use crate::core::*;
 
-pub fn run(property: &str, tier: Tier) -> i32 {
-    match property {
-        "C01" | "C02" | "C03" => run_engine(&vc_diff::VcDiff, property, tier),
-        _ => machinery_failure(&format!("no engine for property {property}")),
-    }
+macro_rules! engines {
+    ($( $eng:expr => [$($p:literal),*] ),* $(,)?) => {
+        pub fn run(property: &str, tier: Tier) -> i32 {
+            $( if [$($p),*].contains(&property) { return run_engine(&$eng, property, tier); } )*
+            machinery_failure(&format!("no engine for property {property}"))
+        }
+        pub fn replay(r: &Replay) -> i32 {
+            $( if r.engine == $eng.name() { return replay_engine(&$eng, r); } )*
+            machinery_failure(&format!("unknown engine {}", r.engine))
+        }
+    };
 }
 
-pub fn replay(r: &Replay) -> i32 {
-    match r.engine.as_str() {
-        "vc_diff" => replay_engine(&vc_diff::VcDiff, r),
-        e => machinery_failure(&format!("unknown engine {e}")),
-    }
+engines! {
+    vc_diff::VcDiff => ["C01", "C02", "C03"],
+    vc_rules::VcRules => ["C04"],
 }
